@@ -17,7 +17,8 @@ DECIDED = ["R01a log-before-write (DOM, cut on the Ok edge of the log insert)",
            "R01e log cleared only by flush/apply_wal; flush only when the nesting counter reaches zero",
            "R01f recovery runs on open and on drop; torn WAL tail is truncated",
            "R01g every success path from Storage::transaction() reaches commit",
-           "R01d (cont.) a write that extends the file logs the pre-operation length"]
+           "R01d (cont.) a write that extends the file logs the pre-operation length",
+           "R01h WriteAheadLog::insert appends a record on every success path (MUST)"]
 UNDECIDED = ["byte-exact restoration for arbitrary operation sequences (arithmetic of positions and lengths)",
              "OS behaviour between write and durability (the code deliberately does not fsync)"]
 
@@ -117,8 +118,38 @@ def recovery_replay_rule(ctx):
         ctx.ob("R01c", "apply_wal:newest-first", ok, detail, where)
 
 
+def wal_insert_rule(ctx, rule="R01h"):
+    """WriteAheadLog::insert appends a record for EVERY call: each of its file writes lies on every path to a success
+    return (no "already logged, skip" exit), and together they are computed from both the position and the bytes.
+    Recovery replays records newest-first, and a position can be logged twice in one transaction with different meaning
+    (the cut-off tail of a shrink, then the pre-append length): de-duplicating by position loses the second."""
+    fa = ctx.facts
+    b = ctx.anchor(rule, WAL + "::insert")
+    if not b:
+        return
+    ws = [(i, t) for i, t in cfg.calls(b) if (cfg.callee_decl(t) or "").startswith("std::io::Write::write")]
+    okb, errb, unk = cfg.ret_class_blocks(b)
+    skipped = [b.loc(i) for i, t in ws if cfg.find_path(b, [0], okb + unk, avoid=[i]) is not None]
+    reads = set()
+    for i, t in ws:
+        for a in t["a"][1:]:
+            pl = cfg.op_place(a)
+            if pl:
+                reads |= {p_ for p_, f in cfg.backward_slice(b, [pl[0]])[2]}
+    ok = bool(ws) and not skipped and {2, 3} <= reads
+    ctx.ob(rule, "WriteAheadLog::insert:appends-unconditionally", ok,
+           "%d file writes, each on every success path; the record is built from the position and the bytes" % len(ws) if ok else
+           "WriteAheadLog::insert can return Ok without %s: an undo record is dropped (a position logged twice in one "
+           "transaction - tail of a shrink, then the length before an append - is restored only half), the file keeps stray "
+           "bytes after recovery and cannot be opened" % (
+               "the write at %s" % skipped[0] if skipped else "writing both the position and the bytes (parameters read: %s)" % sorted(reads)),
+           b.where)
+    ctx.floor(rule, "file writes of WriteAheadLog::insert", len(ws), 3)
+
+
 def run(ctx):
     fa = ctx.facts
+    wal_insert_rule(ctx)
     # ---------------- R01a
     n_inst = 0
     for b in [x for x in fa.bodies.values() if x.d.get("impl_self") == FS and x.crate == "agdb"]:
